@@ -131,9 +131,13 @@ DoSecDel(s, e) ==
 DoMapRemoved(s, e) ==
   LET o == En(s, e.e)
       badEv == e.reason = "EVICTED" /\ e.deleted = 1 /\ s.failing = 0 /\ ~(s.sec[o.k].has /\ s.sec[o.k].v = o.v /\ s.sec[o.k].dl = o.dl)
-      s1 == Vif(s, badEv, "C15", IF o.promoted THEN "entry_evicted_without_identical_copy_in_secondary"
+      \* the recorded finding D14b: an entry created by promotion and updated in place since, so that the tier
+      \* still holds the copy it was promoted from; a promoted entry with no copy at all in the tier is something else
+      d14b == o.promoted /\ s.sec[o.k].has
+      s1 == Vif(s, badEv, "C15", IF d14b THEN "entry_evicted_without_identical_copy_in_secondary"
+                                 ELSE IF o.promoted THEN "promoted_entry_evicted_with_no_copy_in_secondary"
                                  ELSE IF o.loader THEN "loader_entry_evicted_without_demotion" ELSE "set_entry_evicted_without_demotion")
-  IN IF badEv /\ o.promoted THEN [s1 EXCEPT !.kflost = @ \cup {o.k}] ELSE s1
+  IN IF badEv /\ d14b THEN [s1 EXCEPT !.kflost = @ \cup {o.k}] ELSE s1
 
 DoSettled(s, e) ==
   LET a == Vif(s, e.resident > s.maxsize, "C15", "memory_tier_above_maxsize_after_settling")
